@@ -71,8 +71,10 @@ def determinism(props_: list[str], n: int, n_compile: int = 0) -> int:
         hs = ('0', '0', '0') if pinned else ('0', '1', '12345')
         t0 = time.time()
         a = _sub(prop, 'quick', idx, 'fork', hs[0])
-        b = _sub(prop, 'quick', list(reversed(idx)), 'inproc', hs[1])
-        c = _sub(prop, 'quick', idx, 'inproc', hs[2])
+        # compile() runs always execute in a fresh fork (runner.FORK_PER_RUN)
+        m2 = 'fork' if pinned else 'inproc'
+        b = _sub(prop, 'quick', list(reversed(idx)), m2, hs[1])
+        c = _sub(prop, 'quick', idx, m2, hs[2])
         diff = [i for i in idx if not (a[i] == b[i] == c[i])]
         none = [i for i in idx if a[i][0] is None]
         print(f'determinism {prop}: {k} seeds x 3 executions '
